@@ -242,6 +242,29 @@ pub fn run_c13(cfg: &Cfg) -> Report {
         rep.rule = "replay (value re-run through all 16 adapters)".into();
         return rep;
     }
+    if cfg.tier == Tier::Tiny && cfg.knob_u64("lean", 0) == 1 {
+        // lean interpreter workload (other byte orders / pointer widths): extremes, single-byte patterns, random values
+        let s = parallel(cfg, 1, |t| {
+            let mut n = 0u64;
+            let limit = t.cfg.knob_u64("lean_values", 400);
+            let mut cases: Vec<u128> = vec![0, 1, u128::MAX, 1u128 << 127, 0x0123_4567_89AB_CDEF_0011_2233_4455_6677, 0x8000_0000, 0xFF00, 0x00FF, 0x0102, 0x0102_0304];
+            for byte in 0..16 {
+                cases.push(0xA5u128 << (8 * byte));
+            }
+            while !t.cfg.expired() && n < limit {
+                let u = if (n as usize) < cases.len() { cases[n as usize] } else { t.rng.u128() };
+                n += 1;
+                c13_all_widths(t, u, (n as u16).wrapping_mul(257), -(n as i32));
+                if n % 8 == 0 {
+                    c13_transports(t, u, (n % 7) as usize);
+                }
+            }
+            t.st.add("lean_values", n);
+        });
+        rep.stats.merge(s);
+        rep.rule = "lean interpreter workload: extremes, one-byte patterns and random values through all 16 adapters and the transports".into();
+        return rep;
+    }
     let s = parallel(cfg, 1, |t| {
         // whole 16-bit domain, both byte orders, both signs, with varying varint neighbours
         let step = if t.cfg.tier == Tier::Tiny { 97 } else { 1 };
